@@ -60,6 +60,9 @@ class C02(Prop):
         cls = impl.CLS[d]
         for lab in case.get("classes", []):
             res.labels.append(lab)
+        self.static_resolution(case, res, d)
+        if res.failures:
+            return res
         for x in case["instances"]:
             res.evals += 1
             # ---- oracle B: O-SPEC verdict with its own resolver
@@ -128,6 +131,69 @@ class C02(Prop):
                              impl.cj(x)[:200], a[:6], b[:6], impl.cj(flat)[:600]))
             res.labels.append("valid" if got else "invalid")
         return res
+
+    def static_resolution(self, case, res, d):
+        """Every reference string of the root document, resolved under the base in effect at its position: the
+        implementation's resolver and the independent one must designate the same value, or both nothing.
+        (Independent of evaluation order, so it also sees references that wrongly DO resolve.)"""
+        from ..gen import walk
+        from ..oracle import uri as ouri
+        idkw = impl.IDKW[d]
+        oracle = GW.oracle_resolver(case)
+        todo = []
+
+        def go(sub, base, depth):
+            if not isinstance(sub, dict) or depth > 40:
+                return
+            if isinstance(sub.get("$ref"), str):
+                todo.append((base, sub["$ref"]))
+                return
+            sid = sub.get(idkw)
+            if isinstance(sid, str) and sid:
+                base = ouri.join(base, sid)
+            for _, child in walk.children(d, sub):
+                go(child, base, depth + 1)
+        go(case["root"], GW.root_uri(case), 0)
+        if not todo:
+            return
+        try:
+            v = GW.build_validator(case)
+        except Exception:
+            return
+        seen = set()
+        for base, ref in todo[:12]:
+            if (base, ref) in seen:
+                continue
+            seen.add((base, ref))
+            res.evals += 1
+            try:
+                _, want = oracle.resolve(base, ref)
+                want_ok = True
+            except (spec.Unresolvable, optr_error()):
+                want, want_ok = None, False
+            except Exception:
+                continue
+            v.resolver.push_scope(base)
+            try:
+                _, got = v.resolver.resolve(ref)
+                got_ok = True
+            except impl.exceptions.RefResolutionError:
+                got, got_ok = None, False
+            except Exception as e:
+                res.fail(("static-resolution", "raises", impl.tname(e)), "resolve(%r) under base %r: %r" % (ref, base, e))
+                continue
+            finally:
+                v.resolver.pop_scope()
+            if want_ok != got_ok:
+                res.fail(("static-resolution", "impl-resolves-what-designates-nothing" if got_ok else "impl-cannot-resolve"),
+                         "reference %r under base %r: implementation %s, independent resolver %s" % (
+                             ref, base, "-> " + impl.cj(got)[:100] if got_ok else "RefResolutionError",
+                             "-> " + impl.cj(want)[:100] if want_ok else "designates nothing"))
+            elif got_ok and impl.cj(got) != impl.cj(want):
+                res.fail(("static-resolution", "other-target"), "reference %r under base %r: implementation -> %s, "
+                         "independent resolver -> %s" % (ref, base, impl.cj(got)[:150], impl.cj(want)[:150]))
+            if not want_ok:
+                res.labels.append("static:designates-nothing")
 
     def focus(self, case, bucket):
         for x in case["instances"]:
